@@ -274,14 +274,20 @@ CHECKS = {
 EXTRA = {'C01': 'Each configuration additionally runs with failing appenders (none / all / one): deliveries are unchanged '
         'and the error handler is called once per failed delivery (Reported). Strict and lossy builds alternate; a '
         'third of the builds give the root its level afterwards through Config::root_mut(). Scale: 255 .. 65537 '
-        'configured sibling loggers.',
+        'configured sibling loggers. Declarations reach the builders one at a time, in bulk, mixed, or through bulk '
+        'calls with one item.',
+ 'C02': ' Every other record goes the way the macro goes but carries the name of a configured logger as module path '
+        'and file.',
  'C03': 'Sinks are Append implementors and log::Log implementors attached through the blanket adapter (whose own '
         'enabled() says no); builder styles filter()/filters() are mixed. The real ThresholdFilter takes Neutral / '
         'Reject positions inside scripted chains; a child process counts the calls of the handler given to '
         'init_config_with_err_handler across reconfigurations. Scale: 255 .. 70001 declared appenders with '
-        'attachments around 2^8 / 2^16.',
+        'attachments around 2^8 / 2^16. A fifth of the configurations are declared in a configuration document '
+        '(RawConfig + appenders_lossy) with unbuildable filter entries around the chain (Fanout.tla, Effective).',
  'C04': ' Truncate-mode scenarios get a successor appender as well. Every fourth scenario hands over to a successor '
-        'appender opened on the same path while the first was alive; one long lifetime (180 records) per batch.',
+        'appender opened on the same path while the first was alive; one long lifetime (180 records) per batch. '
+        'FileAppender.tla has EncodeFail and Close: the traces script encoder failures (also as the first record '
+        'after build) and end with the drop of the appender.',
  'C05': 'The replay materialises every behaviour five times: 10-byte units with DeleteRoller, 400-byte units with a '
         'two-chunk encoder (straddling the 1 KiB BufWriter), 16-byte units with gzip archives and an appender built '
         'from a configuration value, 12-byte units with the index in a directory component of the archive pattern, '
@@ -303,12 +309,14 @@ EXTRA = {'C01': 'Each configuration additionally runs with failing appenders (no
         'BufWriter capacity as a parameter. Write calls cut short by the operating system are replayed under a file '
         'size limit (600-byte units, one history at a time); limits at the top of the u64 range; recorded '
         'multi-thread traces. The chunked encoder uses write_all / write_vectored / write / write_fmt in turn; long '
-        'behaviours are sampled with TLC -simulate.',
+        "behaviours are sampled with TLC -simulate. Instances with ActFull: the configured path takes no byte ('no "
+        "space left'): every append fails, no policy is consulted, nothing rolls (FullStays).",
  'C07': 'A .gz archive must be exactly one gzip member (bytes after it count as corruption); windows are also placed '
         'at the top of the u32 index range; rollers are built through the builder and from configuration values. A '
         'seventh template has the rolled file on another filesystem; windows of four are in the quick tier. The env '
         "template's variable value contains the index placeholder, a sixth template has the index inside a variable "
-        'name; windows straddle 2^8 and 2^16.',
+        'name; windows straddle 2^8 and 2^16. Wipe: the archive directory is removed with everything in it between '
+        'two rolls.',
  'C08': 'The replay materialises every behaviour five times: 10-byte units with DeleteRoller, 400-byte units with a '
         'two-chunk encoder (straddling the 1 KiB BufWriter), 16-byte units with gzip archives and an appender built '
         'from a configuration value, 12-byte units with the index in a directory component of the archive pattern, '
@@ -323,21 +331,24 @@ EXTRA = {'C01': 'Each configuration additionally runs with failing appenders (no
         'fragments it arrives in), FieldWidths.tla (record fields at the edges of their types under width specs) and '
         "DateZone's logical clock (fractional-second dates are read per encode) run in the same check. The process "
         'is environment state, too (Fork): histories continued in forked children for {P} / {pid}. Sinks accept '
-        'prefixes and interrupt calls.',
+        'prefixes and interrupt calls. The grammar has a literal percent sign in front of text that looks like a '
+        'specifier ({d(%%#z)}).',
  'C10': 'Every length class is instantiated by code points at the edges of its UTF-8 range (first / last lead byte, '
         'first / last continuation byte); fill characters of 1, 2 and 3 bytes; every third case builds the encoder '
         'from a configuration value. Every third case has multi-byte literal text in front of the spec; an earlier '
         'record of the same thread fails half-way before each case. Sink scripts include interrupted calls (accept '
-        'value 0).',
+        'value 0). The spec is attached to the formatter, a group, the active conditional group, and - for the empty '
+        'text - the inactive one around a non-empty body.',
  'C11': 'The curated family includes alignment nested in alignment (re-entrant width writers); every fourth case '
         'encodes into a sink that accepts only a prefix per write call. FieldWidths.tla runs in the same check; the '
         'family has absurd widths on literal-only and nested groups. Placeholders stand for 2- and 3-byte '
-        'representatives in turn.',
+        'representatives in turn. The family has the long names of the group formatters with 0 and 2 arguments.',
  'C12': 'Sinks accept everything, one byte, three bytes or 7/1/64 bytes per write call; every other record uses an '
         'encoder built from a configuration value; an earlier record of the same thread fails part-way into its '
         'sink. A style request from the JSON encoder is a violation; Fragments.tla runs in the same check; the '
         'two-byte class includes C1 controls. Records with fields of 255 .. 70001 characters are added beyond the '
-        "model's length bound; sinks interrupt calls.",
+        "model's length bound; sinks interrupt calls. In two of three cases a pattern encoder has rendered thread "
+        'name, ids and context map on the thread before.',
  'C13': 'The declarations reach the builders one at a time, in bulk and in mixtures of both (appender()/appenders(), '
         'logger()/loggers(), and the same for references). Every other case renames the appender namespace onto the '
         'strings logger names are made of.',
@@ -345,13 +356,16 @@ EXTRA = {'C01': 'Each configuration additionally runs with failing appenders (no
         'log4rs::config::Deserializers in the same run. Wrong-typed kinds at every level; a zero limit as a bare '
         'integer; ConfigFormat.tla (which reader a file name gets) runs in the same check. The surviving file / '
         'rolling appender must print (Debug) exactly like its programmatic twin; the size limit is spelled '
-        'differently in each rendering.',
+        'differently in each rendering. Refresh rates below one second, compared on the raw document and on what a '
+        'reloader adopts after reading it.',
  'C15': 'The refresh thread itself is covered impl->spec: scripted lifetimes of the real init_file thread (hook '
         'reloader.sleep) are validated as traces against Reloader.tla (Trace_Reloader.tla): every sleep lasts the '
         'rate of the last applied file. A directed scenario parks a logging thread inside Logger::enabled (hook '
         'enabled.loaded); the swap scenarios run under a watchdog (a call that never returns is a violation). Half '
         'of the live scenarios configure a symbolic link that is re-pointed at every edit; long edit / poll '
-        'histories are sampled with TLC -simulate; one long lifetime of reconfigurations per batch of swap traces.',
+        'histories are sampled with TLC -simulate; one long lifetime of reconfigurations per batch of swap traces. '
+        "Versions of the live documents differ in a child logger's level; the apply event carries log::max_level() "
+        'and must equal MaxLevel of the applied version.',
  'C16': 'Every other history builds the whole appender (compound policy, trigger kind `time`) from a configuration '
         'value. Random-delay bounds up to u64::MAX. Counts of hours / minutes / seconds around 2^31 / 2^32 seconds '
         'and at the 1000-year maxima (NextTimeBig); lifetimes of 300 arrivals sampled with TLC -simulate.',
@@ -363,18 +377,25 @@ EXTRA = {'C01': 'Each configuration additionally runs with failing appenders (no
         'BufWriter capacity as a parameter. Recorded traces of threads released together by a barrier, and one long '
         'lifetime of 320 / 2400 records per batch, are validated against Rolling.tla (Trace_Rolling.tla). In one '
         'materialisation the configured path is a symbolic link to the file found at start-up. Long behaviours are '
-        'sampled with TLC -simulate.',
+        'sampled with TLC -simulate. With a limit of one unit the configuration leaves min_size out (the documented '
+        'default of one byte).',
  'C18': 'After every append the child writes a marker to the descriptor itself: each record must be on the stream '
         'when its append returns; every row runs with builder- and configuration-built appenders, with and without a '
         'final newline in the pattern. A fourth pattern variant logs a 2 KiB literal behind a newline; after the '
         'first appender the stream is re-pointed at a file and a second appender is built. A third pattern variant '
-        'puts two highlight groups directly next to each other inside a right-aligned group.',
+        'puts two highlight groups directly next to each other inside a right-aligned group. ConsoleStream.tla '
+        '(threads and two appenders on one stream, with and without the stream lock) is model-checked and the bytes '
+        'of real child processes on pipes and terminals are validated as a trace (Trace_ConsoleStream.tla); builder '
+        'setters are given in both orders.',
  'C19': 'A fifth site rolls three times through a window of two with the index before the reference (an expansion '
         "containing '/' puts the index into a directory component). The environment holds a variable with an "
-        'ill-formed name. A sixth site uses a relative path (reference at byte 0) in a scratch working directory.',
+        'ill-formed name. A sixth site uses a relative path (reference at byte 0) in a scratch working directory. A '
+        "seventh site puts the roller's index where the input has a digit (window of three; a variable set for one "
+        'index only).',
  'C20': 'Junk units include long ones (7..257 letters, a 2-, 3- or 4-byte letter at every place). Junk units with '
         'doubled plural endings and one letter too many. Every interval literal also builds the `time` trigger '
-        '(accepted exactly between one unit and 1000 years, never a panic); junk units up to 257 letters.'}
+        '(accepted exactly between one unit and 1000 years, never a panic); junk units up to 257 letters. Every '
+        'literal also travels through TOML and as a signed configuration value.'}
 
 NOT_YET = "check not built yet in this round (planned, see DESIGN.md section 7)"
 
